@@ -111,6 +111,18 @@ Definition copy_effs (n : nat) (data : bytes) (dst : path) : list eff :=
 Record afst := St { a_closed : bool; a_rolled : bool }.
 Inductive op : Type := OWrite (b : bytes) | OClose | ORollback.
 
+(* ---- death by an exception that unwinds the stack (SystemExit from the SIGTERM
+   handler, KeyboardInterrupt, an I/O error): what the unwinding does to the open
+   AtomicFile is decided by the source (regenerated table T17): __del__ of the
+   collected object / __exit__ with an exception in flight roll back, and no
+   caller calls close() -- the COMMIT -- in a finally:/except: block.  Should any
+   of these change, the unwinding commits. ---- *)
+Definition unwind_commits : bool :=
+  negb (gen.T17.DEL_ROLLS_BACK && gen.T17.EXIT_ROLLS_BACK
+        && match gen.T17.COMMIT_ON_UNWIND_SITES with [] => true | _ => false end).
+Definition unwind_op : op := if unwind_commits then OClose else ORollback.
+Definition is_closeF (e : eff) : bool := match e with CloseF _ => true | _ => false end.
+
 Section AF.
 Variables (cfg : config) (fn tok now : str) (chunk : nat).
 Let temp := temp_name cfg fn tok.
@@ -188,11 +200,27 @@ Definition session (f0 : fs) (ops : list op) : list eff * list (res unit) :=
   (Create temp :: es, rs).
 
 Definition effects (f0 : fs) (ops : list op) : list eff := fst (session f0 ops).
+
+(* an exception raised after the first k effects: [pre] has happened, then the
+   stack unwinds.  [inited] = the exception is raised outside __init__ (inside
+   it the object has no _fd yet and __del__ can do nothing). *)
+Definition unwind_effs (inited : bool) (pre : list eff) (f : fs) : list eff :=
+  if inited then snd (fst (step (St (existsb is_closeF pre) false) f unwind_op)) else [].
+
+Definition interrupted (f0 : fs) (ops : list op) (k : nat) (inited : bool) : list eff :=
+  let pre := firstn k (effects f0 ops) in
+  pre ++ unwind_effs inited pre (apply pre f0).
 End AF.
 
 (* what every caller does: write*, close *)
 Definition save_ops (ws : list bytes) : list op := map OWrite ws ++ [OClose].
 Definition abort_ops (ws : list bytes) : list op := map OWrite ws ++ [ORollback].
+
+(* registry.close wraps the write of every value in try/except Exception (table
+   T17: SWALLOW_WRITE_ERROR_SITES): an OSError raised by the j-th write is
+   logged, the loop goes on, and close() commits the file without that chunk. *)
+Definition swallowed_ops (ws : list bytes) (j : nat) : list op :=
+  save_ops (firstn j ws ++ skipn (S j) ws).
 
 (* mktemp() returns a hex digest: the contract the naming theorems need *)
 Definition hexdigit (c : N) : bool :=
@@ -250,6 +278,7 @@ Fixpoint states_at (fuel i : nat) (es : list eff) (f : fs) (ks : list nat) (out 
          ((temp backup) results effects (state after the first k effects, for k in ks))
          state = (target temp backup), each () or (bytes); temp is (length) when full_temp = 0
    op 3: same input, states computed as  apply (firstn k es) f0
+   op 4: (fn tok now cfg fs0 ops chunk k inited full_temp) -> (effects-of-the-interrupted-flush final-state)
    op 1: (a b) -> path_join a b ; op 2: s -> basename s *)
 Definition vState (full : bool) (fn t b : path) (f : fs) : value :=
   L [vO vS (f fn); (if full then vO vS (f t) else vO vLen (f t)); vO vS (f b)].
@@ -269,11 +298,22 @@ Definition run_session (direct : bool) (p : value) : value :=
      L (if direct then map (fun k => vState full fn t b (apply (firstn k es) f0)) ks
         else states_at (length es + length ks + 1) 0 es f0 ks (vState full fn t b))].
 
+Definition run_unwind (p : value) : value :=
+  let fn := gS (nth_v 0 p) in let tok := gS (nth_v 1 p) in let now := gS (nth_v 2 p) in
+  let cfg := gCfg (nth_v 3 p) in let f0 := gFs (nth_v 4 p) in
+  let ops := map gOp (gL (nth_v 5 p)) in
+  let chunk := N.to_nat (gN (nth_v 6 p)) in
+  let k := N.to_nat (gN (nth_v 7 p)) in
+  let es := interrupted cfg fn tok now chunk f0 ops k (gB (nth_v 8 p)) in
+  L [L (map vEff es);
+     vState (gB (nth_v 9 p)) fn (temp_name cfg fn tok) (backup_name cfg fn now) (apply es f0)].
+
 Definition run (v : value) : value :=
   let p := nth_v 1 v in
   match gN (nth_v 0 v) with
   | 0 => run_session false p
   | 3 => run_session true p
+  | 4 => run_unwind p
   | 1 => vS (path_join (gS (nth_v 0 p)) (gS (nth_v 1 p)))
   | 2 => vS (basename (gS p))
   | _ => L []
